@@ -274,6 +274,222 @@ proof fn known_mono(v: Seq<Frame>, m: Map<String, (usize, usize)>, l1: Set<Strin
         assert(srcs_known(v[p], m, l1, v[p].sources@.len() as int));
     }
 }
+
+// ---------- order: a rule is emitted only after every rule it depends on (I3) ----------
+// rule b has been emitted: its slot is empty and its recorded final position holds its frame
+spec fn emitted(fb: Seq<FrameBufferValue>, fio: Seq<Frame>, b: int) -> bool { 0 <= b < fb.len() && fb[b].opt_frame is None && fb[b].final_index < fio.len() && fio[fb[b].final_index as int].index == b }
+spec fn in_seq(s: Seq<Frame>, b: int) -> bool { exists|p: int| 0 <= p < s.len() && (#[trigger] s[p]).index == b }
+spec fn above(s: Seq<Frame>, q: int, b: int) -> bool { exists|r: int| q < r < s.len() && (#[trigger] s[r]).index == b }
+// one of the first k sources of f is a target of rule b
+spec fn dep_upto(f: Frame, m: Map<String, (usize, usize)>, b: int, k: int) -> bool { exists|j: int| 0 <= j < k && j < f.sources@.len() && m.contains_key(#[trigger] f.sources@[j]) && m[f.sources@[j]].0 == b }
+spec fn dep(f: Frame, m: Map<String, (usize, usize)>, b: int) -> bool { dep_upto(f, m, b, f.sources@.len() as int) }
+// the emitted list: positions recorded, and every rule a listed rule depends on is listed EARLIER
+spec fn emit_ok(fb: Seq<FrameBufferValue>, fio: Seq<Frame>, m: Map<String, (usize, usize)>, tl: Seq<int>) -> bool {
+    &&& fb.len() == tl.len()
+    &&& forall|p: int| 0 <= p < fio.len() ==> fok(#[trigger] fio[p], tl) && fb[fio[p].index as int].opt_frame is None && fb[fio[p].index as int].final_index == p
+    &&& forall|p: int, b: int| 0 <= p < fio.len() && #[trigger] dep(fio[p], m, b) ==> emitted(fb, fio, b) && fb[b].final_index < p
+}
+spec fn held(s: Seq<Frame>, fb: Seq<FrameBufferValue>, fio: Seq<Frame>) -> bool { forall|p: int| 0 <= p < s.len() ==> (#[trigger] s[p]).index < fb.len() && fb[s[p].index as int].opt_frame is None && !emitted(fb, fio, s[p].index as int) }
+spec fn distinct(s: Seq<Frame>) -> bool { forall|p: int, q: int| 0 <= p < q < s.len() ==> (#[trigger] s[p]).index != (#[trigger] s[q]).index }
+spec fn disjoint(s: Seq<Frame>, t: Seq<Frame>) -> bool { forall|p: int, q: int| 0 <= p < s.len() && 0 <= q < t.len() ==> (#[trigger] s[p]).index != (#[trigger] t[q]).index }
+// the traversal invariant.  stack / rev (the `reverser`) / cur (index of the frame being expanded, or -1) hold the rules taken
+// from the table and not yet emitted, each once; every rule a VISITED stack frame depends on is emitted or sits above it (or is
+// on its way there: in rev, or is the frame in hand)
+spec fn dfs_inv(fb: Seq<FrameBufferValue>, fio: Seq<Frame>, m: Map<String, (usize, usize)>, tl: Seq<int>, stack: Seq<Frame>, rev: Seq<Frame>, cur: int, iset: Set<usize>) -> bool {
+    &&& emit_ok(fb, fio, m, tl)
+    &&& held(stack, fb, fio) && held(rev, fb, fio) && distinct(stack) && distinct(rev) && disjoint(stack, rev)
+    &&& (cur >= 0 ==> cur < fb.len() && fb[cur].opt_frame is None && !emitted(fb, fio, cur) && !in_seq(stack, cur) && !in_seq(rev, cur))
+    &&& forall|b: int| 0 <= b < fb.len() && (#[trigger] fb[b]).opt_frame is None ==> emitted(fb, fio, b) || in_seq(stack, b) || in_seq(rev, b) || b == cur
+    &&& forall|p: int| 0 <= p < stack.len() ==> iset.contains((#[trigger] stack[p]).index)
+    &&& forall|q: int, b: int| 0 <= q < stack.len() && stack[q].visited && #[trigger] dep(stack[q], m, b) ==> emitted(fb, fio, b) || above(stack, q, b) || in_seq(rev, b) || b == cur
+}
+// between two calls of sort_once: nothing in hand
+spec fn rest_ok(fb: Seq<FrameBufferValue>, fio: Seq<Frame>, m: Map<String, (usize, usize)>, tl: Seq<int>) -> bool {
+    emit_ok(fb, fio, m, tl) && forall|b: int| 0 <= b < fb.len() && (#[trigger] fb[b]).opt_frame is None ==> emitted(fb, fio, b)
+}
+// the first k sources of the frame in hand: the rule each depends on is emitted or waiting in rev
+spec fn srcs_placed(f: Frame, m: Map<String, (usize, usize)>, k: int, fb: Seq<FrameBufferValue>, fio: Seq<Frame>, rev: Seq<Frame>) -> bool {
+    forall|b: int| #[trigger] dep_upto(f, m, b, k) ==> emitted(fb, fio, b) || in_seq(rev, b)
+}
+spec fn slot_none(v: FrameBufferValue) -> FrameBufferValue { FrameBufferValue { final_index: v.final_index, opt_frame: None } }
+
+proof fn dfs_start(fb: Seq<FrameBufferValue>, fio: Seq<Frame>, m: Map<String, (usize, usize)>, tl: Seq<int>)
+    requires rest_ok(fb, fio, m, tl) ensures dfs_inv(fb, fio, m, tl, Seq::empty(), Seq::empty(), -1, Set::empty())
+{}
+proof fn dfs_finish(fb: Seq<FrameBufferValue>, fio: Seq<Frame>, m: Map<String, (usize, usize)>, tl: Seq<int>, stack: Seq<Frame>, iset: Set<usize>)
+    requires dfs_inv(fb, fio, m, tl, stack, Seq::empty(), -1, iset), stack.len() == 0 ensures rest_ok(fb, fio, m, tl)
+{}
+// take rule b out of the table into rev
+proof fn dfs_take(fb: Seq<FrameBufferValue>, fio: Seq<Frame>, m: Map<String, (usize, usize)>, tl: Seq<int>, stack: Seq<Frame>, rev: Seq<Frame>, cur: int, iset: Set<usize>, b: int, f: Frame, fb2: Seq<FrameBufferValue>)
+    requires dfs_inv(fb, fio, m, tl, stack, rev, cur, iset), 0 <= b < fb.len(), fb[b].opt_frame is Some, f.index == b, fb2 == fb.update(b, slot_none(fb[b])),
+    ensures dfs_inv(fb2, fio, m, tl, stack, rev.push(f), cur, iset), forall|c: int| emitted(fb, fio, c) ==> emitted(fb2, fio, c), in_seq(rev.push(f), b),
+        forall|c: int| in_seq(rev, c) ==> in_seq(rev.push(f), c),
+{
+    let rev2 = rev.push(f);
+    assert forall|c: int| emitted(fb2, fio, c) == (emitted(fb, fio, c)) by {
+        if c == b && emitted(fb2, fio, c) { let p = fb[b].final_index as int; assert(fok(fio[p], tl)); }
+    }
+    assert(rev2[rev.len() as int].index == b);
+    assert forall|c: int| in_seq(rev, c) implies in_seq(rev2, c) by { let p = choose|p: int| 0 <= p < rev.len() && (#[trigger] rev[p]).index == c; assert(rev2[p].index == c); }
+    assert(!in_seq(stack, b)) by { if in_seq(stack, b) { let p = choose|p: int| 0 <= p < stack.len() && (#[trigger] stack[p]).index == b; } }
+    assert(!in_seq(rev, b)) by { if in_seq(rev, b) { let p = choose|p: int| 0 <= p < rev.len() && (#[trigger] rev[p]).index == b; } }
+    assert(held(rev2, fb2, fio)) by { assert forall|p: int| 0 <= p < rev2.len() implies (#[trigger] rev2[p]).index < fb2.len() && fb2[rev2[p].index as int].opt_frame is None && !emitted(fb2, fio, rev2[p].index as int) by { if p < rev.len() { assert(rev2[p] == rev[p]); } } }
+    assert(held(stack, fb2, fio));
+    assert(distinct(rev2)) by { assert forall|p: int, q: int| 0 <= p < q < rev2.len() implies (#[trigger] rev2[p]).index != (#[trigger] rev2[q]).index by { assert(rev2[p] == rev[p]); if q < rev.len() { assert(rev2[q] == rev[q]); } } }
+    assert(disjoint(stack, rev2)) by { assert forall|p: int, q: int| 0 <= p < stack.len() && 0 <= q < rev2.len() implies (#[trigger] stack[p]).index != (#[trigger] rev2[q]).index by { if q < rev.len() { assert(rev2[q] == rev[q]); } } }
+    if cur >= 0 { assert(!in_seq(rev2, cur)) by { if in_seq(rev2, cur) { let p = choose|p: int| 0 <= p < rev2.len() && (#[trigger] rev2[p]).index == cur; if p < rev.len() { assert(rev[p].index == cur); } } } }
+    assert forall|c: int| 0 <= c < fb2.len() && (#[trigger] fb2[c]).opt_frame is None implies emitted(fb2, fio, c) || in_seq(stack, c) || in_seq(rev2, c) || c == cur by { if c != b { assert(fb[c].opt_frame is None); } }
+    assert(emit_ok(fb2, fio, m, tl)) by {
+        assert forall|p: int| 0 <= p < fio.len() implies fok(#[trigger] fio[p], tl) && fb2[fio[p].index as int].opt_frame is None && fb2[fio[p].index as int].final_index == p by {}
+    }
+}
+// a fact about a rule that is neither in hand, nor on the stack: it is emitted or waiting in rev
+proof fn dfs_elsewhere(fb: Seq<FrameBufferValue>, fio: Seq<Frame>, m: Map<String, (usize, usize)>, tl: Seq<int>, stack: Seq<Frame>, rev: Seq<Frame>, cur: int, iset: Set<usize>, b: int)
+    requires dfs_inv(fb, fio, m, tl, stack, rev, cur, iset), 0 <= b < fb.len(), fb[b].opt_frame is None, b != cur, !iset.contains(b as usize)
+    ensures emitted(fb, fio, b) || in_seq(rev, b)
+{
+    if in_seq(stack, b) { let p = choose|p: int| 0 <= p < stack.len() && (#[trigger] stack[p]).index == b; assert(iset.contains(stack[p].index)); }
+}
+// one more source of the frame in hand has been dealt with
+proof fn placed_step(f: Frame, m: Map<String, (usize, usize)>, k: int, fb: Seq<FrameBufferValue>, fio: Seq<Frame>, rev: Seq<Frame>, fb2: Seq<FrameBufferValue>, rev2: Seq<Frame>)
+    requires srcs_placed(f, m, k, fb, fio, rev), 0 <= k < f.sources@.len(),
+        forall|c: int| emitted(fb, fio, c) ==> emitted(fb2, fio, c), forall|c: int| in_seq(rev, c) ==> in_seq(rev2, c),
+        m.contains_key(f.sources@[k]) ==> emitted(fb2, fio, m[f.sources@[k]].0 as int) || in_seq(rev2, m[f.sources@[k]].0 as int),
+    ensures srcs_placed(f, m, k + 1, fb2, fio, rev2)
+{
+    assert forall|b: int| #[trigger] dep_upto(f, m, b, k + 1) implies emitted(fb2, fio, b) || in_seq(rev2, b) by {
+        let j = choose|j: int| 0 <= j < k + 1 && j < f.sources@.len() && m.contains_key(#[trigger] f.sources@[j]) && m[f.sources@[j]].0 == b;
+        if j < k { assert(dep_upto(f, m, b, k)); }
+    }
+}
+// the top frame, visited, is emitted
+proof fn dfs_emit(fb: Seq<FrameBufferValue>, fio: Seq<Frame>, m: Map<String, (usize, usize)>, tl: Seq<int>, stack0: Seq<Frame>, iset: Set<usize>, frame: Frame, fb2: Seq<FrameBufferValue>)
+    requires dfs_inv(fb, fio, m, tl, stack0, Seq::empty(), -1, iset), stack0.len() > 0, frame == stack0.last(), frame.visited, fok(frame, tl), fio.len() < usize::MAX,
+        fb2 == fb.update(frame.index as int, FrameBufferValue { final_index: fio.len() as usize, opt_frame: fb[frame.index as int].opt_frame }),
+    ensures dfs_inv(fb2, fio.push(frame), m, tl, stack0.drop_last(), Seq::empty(), -1, iset.remove(frame.index))
+{
+    let bi = frame.index as int; let fio2 = fio.push(frame); let stack1 = stack0.drop_last(); let top = stack0.len() - 1; let n = fio.len() as int;
+    let rev = Seq::<Frame>::empty();
+    assert(stack0[top].index == bi);
+    assert(fb[bi].opt_frame is None && !emitted(fb, fio, bi));
+    assert forall|p: int| 0 <= p < n implies (#[trigger] fio[p]).index != bi by { if fio[p].index == bi { assert(fok(fio[p], tl)); assert(emitted(fb, fio, bi)); } }
+    assert forall|c: int| c != bi implies emitted(fb2, fio2, c) == emitted(fb, fio, c) by {
+        if 0 <= c < fb.len() && fb[c].opt_frame is None {
+            let fi = fb[c].final_index as int;
+            if fi < n { assert(fio2[fi] == fio[fi]); } else if fi == n { assert(fio2[fi].index == bi); }
+        }
+    }
+    assert(emitted(fb2, fio2, bi)) by { assert(fio2[n] == frame); }
+    assert forall|p: int| 0 <= p < fio2.len() implies fok(#[trigger] fio2[p], tl) && fb2[fio2[p].index as int].opt_frame is None && fb2[fio2[p].index as int].final_index == p by {
+        if p < n { assert(fio2[p] == fio[p]); assert(fok(fio[p], tl)); }
+    }
+    assert forall|p: int, b: int| 0 <= p < fio2.len() && #[trigger] dep(fio2[p], m, b) implies emitted(fb2, fio2, b) && fb2[b].final_index < p by {
+        if p < n { assert(fio2[p] == fio[p]); assert(dep(fio[p], m, b)); assert(emitted(fb, fio, b)); }
+        else { assert(dep(stack0[top], m, b)); assert(!above(stack0, top, b)); assert(!in_seq(rev, b)); assert(emitted(fb, fio, b)); }
+    }
+    assert(held(stack1, fb2, fio2)) by { assert forall|p: int| 0 <= p < stack1.len() implies (#[trigger] stack1[p]).index < fb2.len() && fb2[stack1[p].index as int].opt_frame is None && !emitted(fb2, fio2, stack1[p].index as int) by { assert(stack1[p] == stack0[p]); assert(stack0[p].index != stack0[top].index); } }
+    assert(distinct(stack1)) by { assert forall|p: int, q: int| 0 <= p < q < stack1.len() implies (#[trigger] stack1[p]).index != (#[trigger] stack1[q]).index by { assert(stack1[p] == stack0[p] && stack1[q] == stack0[q]); } }
+    assert forall|c: int| 0 <= c < fb2.len() && (#[trigger] fb2[c]).opt_frame is None implies emitted(fb2, fio2, c) || in_seq(stack1, c) || in_seq(rev, c) || c == -1 by {
+        if c != bi { assert(fb[c].opt_frame is None); if in_seq(stack0, c) { let p = choose|p: int| 0 <= p < stack0.len() && (#[trigger] stack0[p]).index == c; assert(p != top); assert(stack1[p].index == c); } }
+    }
+    assert forall|p: int| 0 <= p < stack1.len() implies iset.remove(frame.index).contains((#[trigger] stack1[p]).index) by { assert(stack1[p] == stack0[p]); assert(stack0[p].index != stack0[top].index); assert(iset.contains(stack0[p].index)); }
+    assert forall|q: int, b: int| 0 <= q < stack1.len() && stack1[q].visited && #[trigger] dep(stack1[q], m, b) implies emitted(fb2, fio2, b) || above(stack1, q, b) || in_seq(rev, b) || b == -1 by {
+        assert(stack1[q] == stack0[q]); assert(dep(stack0[q], m, b));
+        if above(stack0, q, b) { let r = choose|r: int| q < r < stack0.len() && (#[trigger] stack0[r]).index == b; if r < top { assert(stack1[r].index == b); } }
+    }
+}
+// the top frame, not yet visited, is taken in hand
+proof fn dfs_pop(fb: Seq<FrameBufferValue>, fio: Seq<Frame>, m: Map<String, (usize, usize)>, tl: Seq<int>, stack0: Seq<Frame>, iset: Set<usize>, frame: Frame)
+    requires dfs_inv(fb, fio, m, tl, stack0, Seq::empty(), -1, iset), stack0.len() > 0, frame == stack0.last(),
+    ensures dfs_inv(fb, fio, m, tl, stack0.drop_last(), Seq::empty(), frame.index as int, iset.remove(frame.index)), srcs_placed(frame, m, 0, fb, fio, Seq::empty()),
+{
+    let bi = frame.index as int; let stack1 = stack0.drop_last(); let top = stack0.len() - 1; let rev = Seq::<Frame>::empty();
+    assert(stack0[top].index == bi);
+    assert(!in_seq(stack1, bi)) by { if in_seq(stack1, bi) { let p = choose|p: int| 0 <= p < stack1.len() && (#[trigger] stack1[p]).index == bi; assert(stack1[p] == stack0[p]); } }
+    assert(held(stack1, fb, fio)) by { assert forall|p: int| 0 <= p < stack1.len() implies (#[trigger] stack1[p]).index < fb.len() && fb[stack1[p].index as int].opt_frame is None && !emitted(fb, fio, stack1[p].index as int) by { assert(stack1[p] == stack0[p]); } }
+    assert(distinct(stack1)) by { assert forall|p: int, q: int| 0 <= p < q < stack1.len() implies (#[trigger] stack1[p]).index != (#[trigger] stack1[q]).index by { assert(stack1[p] == stack0[p] && stack1[q] == stack0[q]); } }
+    assert forall|c: int| 0 <= c < fb.len() && (#[trigger] fb[c]).opt_frame is None implies emitted(fb, fio, c) || in_seq(stack1, c) || in_seq(rev, c) || c == bi by {
+        if in_seq(stack0, c) { let p = choose|p: int| 0 <= p < stack0.len() && (#[trigger] stack0[p]).index == c; if p != top { assert(stack1[p].index == c); } }
+    }
+    assert forall|p: int| 0 <= p < stack1.len() implies iset.remove(frame.index).contains((#[trigger] stack1[p]).index) by { assert(stack1[p] == stack0[p]); assert(stack0[p].index != stack0[top].index); assert(iset.contains(stack0[p].index)); }
+    assert forall|q: int, b: int| 0 <= q < stack1.len() && stack1[q].visited && #[trigger] dep(stack1[q], m, b) implies emitted(fb, fio, b) || above(stack1, q, b) || in_seq(rev, b) || b == bi by {
+        assert(stack1[q] == stack0[q]); assert(dep(stack0[q], m, b));
+        if above(stack0, q, b) { let r = choose|r: int| q < r < stack0.len() && (#[trigger] stack0[r]).index == b; if r < top { assert(stack1[r].index == b); } }
+    }
+}
+// an unvisited sibling is moved from the stack to rev
+proof fn dfs_sibling(fb: Seq<FrameBufferValue>, fio: Seq<Frame>, m: Map<String, (usize, usize)>, tl: Seq<int>, stack: Seq<Frame>, rev: Seq<Frame>, cur: int, iset: Set<usize>, pos: int, f: Frame)
+    requires dfs_inv(fb, fio, m, tl, stack, rev, cur, iset), 0 <= pos < stack.len(), f.index == stack[pos].index,
+    ensures dfs_inv(fb, fio, m, tl, stack.remove(pos), rev.push(f), cur, iset.remove(f.index)), in_seq(rev.push(f), f.index as int),
+        forall|c: int| in_seq(rev, c) ==> in_seq(rev.push(f), c),
+{
+    let s2 = stack.remove(pos); let rev2 = rev.push(f); let b = f.index as int;
+    assert(rev2[rev.len() as int].index == b);
+    assert forall|c: int| in_seq(rev, c) implies in_seq(rev2, c) by { let p = choose|p: int| 0 <= p < rev.len() && (#[trigger] rev[p]).index == c; assert(rev2[p].index == c); }
+    assert forall|p: int| 0 <= p < s2.len() implies #[trigger] s2[p] == stack[if p < pos { p } else { p + 1 }] by {}
+    assert(held(s2, fb, fio)) by { assert forall|p: int| 0 <= p < s2.len() implies (#[trigger] s2[p]).index < fb.len() && fb[s2[p].index as int].opt_frame is None && !emitted(fb, fio, s2[p].index as int) by { let p0 = if p < pos { p } else { p + 1 }; assert(s2[p] == stack[p0]); } }
+    assert(held(rev2, fb, fio)) by { assert forall|p: int| 0 <= p < rev2.len() implies (#[trigger] rev2[p]).index < fb.len() && fb[rev2[p].index as int].opt_frame is None && !emitted(fb, fio, rev2[p].index as int) by { if p < rev.len() { assert(rev2[p] == rev[p]); } else { assert(stack[pos].index == b); } } }
+    assert(distinct(s2)) by { assert forall|p: int, q: int| 0 <= p < q < s2.len() implies (#[trigger] s2[p]).index != (#[trigger] s2[q]).index by { let p0 = if p < pos { p } else { p + 1 }; let q0 = if q < pos { q } else { q + 1 }; assert(s2[p] == stack[p0] && s2[q] == stack[q0]); } }
+    assert(distinct(rev2)) by { assert forall|p: int, q: int| 0 <= p < q < rev2.len() implies (#[trigger] rev2[p]).index != (#[trigger] rev2[q]).index by { assert(rev2[p] == rev[p]); if q < rev.len() { assert(rev2[q] == rev[q]); } else { assert(stack[pos].index == b); } } }
+    assert(disjoint(s2, rev2)) by { assert forall|p: int, q: int| 0 <= p < s2.len() && 0 <= q < rev2.len() implies (#[trigger] s2[p]).index != (#[trigger] rev2[q]).index by { let p0 = if p < pos { p } else { p + 1 }; assert(s2[p] == stack[p0]); if q < rev.len() { assert(rev2[q] == rev[q]); } else { assert(stack[p0].index != stack[pos].index); } } }
+    if cur >= 0 {
+        assert(!in_seq(s2, cur)) by { if in_seq(s2, cur) { let p = choose|p: int| 0 <= p < s2.len() && (#[trigger] s2[p]).index == cur; let p0 = if p < pos { p } else { p + 1 }; assert(stack[p0].index == cur); } }
+        assert(!in_seq(rev2, cur)) by { if in_seq(rev2, cur) { let p = choose|p: int| 0 <= p < rev2.len() && (#[trigger] rev2[p]).index == cur; if p < rev.len() { assert(rev[p].index == cur); } else { assert(stack[pos].index == cur); } } }
+    }
+    assert forall|c: int| 0 <= c < fb.len() && (#[trigger] fb[c]).opt_frame is None implies emitted(fb, fio, c) || in_seq(s2, c) || in_seq(rev2, c) || c == cur by {
+        if in_seq(stack, c) { let p = choose|p: int| 0 <= p < stack.len() && (#[trigger] stack[p]).index == c; if p < pos { assert(s2[p].index == c); } else if p > pos { assert(s2[p - 1].index == c); } }
+    }
+    assert forall|p: int| 0 <= p < s2.len() implies iset.remove(f.index).contains((#[trigger] s2[p]).index) by { let p0 = if p < pos { p } else { p + 1 }; assert(s2[p] == stack[p0]); assert(stack[p0].index != stack[pos].index); assert(iset.contains(stack[p0].index)); }
+    assert forall|q: int, c: int| 0 <= q < s2.len() && s2[q].visited && #[trigger] dep(s2[q], m, c) implies emitted(fb, fio, c) || above(s2, q, c) || in_seq(rev2, c) || c == cur by {
+        let q0 = if q < pos { q } else { q + 1 }; assert(s2[q] == stack[q0]); assert(dep(stack[q0], m, c));
+        if above(stack, q0, c) { let r = choose|r: int| q0 < r < stack.len() && (#[trigger] stack[r]).index == c; if r < pos { assert(s2[r].index == c); } else if r > pos { assert(s2[r - 1].index == c); } }
+    }
+}
+// the frame in hand goes back on the stack, visited
+proof fn dfs_visit(fb: Seq<FrameBufferValue>, fio: Seq<Frame>, m: Map<String, (usize, usize)>, tl: Seq<int>, stack: Seq<Frame>, rev: Seq<Frame>, cur: int, iset: Set<usize>, fv: Frame)
+    requires dfs_inv(fb, fio, m, tl, stack, rev, cur, iset), cur >= 0, fv.index == cur, srcs_placed(fv, m, fv.sources@.len() as int, fb, fio, rev),
+    ensures dfs_inv(fb, fio, m, tl, stack.push(fv), rev, -1, iset.insert(fv.index))
+{
+    let s2 = stack.push(fv); let top = stack.len() as int;
+    assert(s2[top].index == cur);
+    assert(held(s2, fb, fio)) by { assert forall|p: int| 0 <= p < s2.len() implies (#[trigger] s2[p]).index < fb.len() && fb[s2[p].index as int].opt_frame is None && !emitted(fb, fio, s2[p].index as int) by { if p < top { assert(s2[p] == stack[p]); } } }
+    assert(distinct(s2)) by { assert forall|p: int, q: int| 0 <= p < q < s2.len() implies (#[trigger] s2[p]).index != (#[trigger] s2[q]).index by { assert(s2[p] == stack[p]); if q < top { assert(s2[q] == stack[q]); } } }
+    assert(disjoint(s2, rev)) by { assert forall|p: int, q: int| 0 <= p < s2.len() && 0 <= q < rev.len() implies (#[trigger] s2[p]).index != (#[trigger] rev[q]).index by { if p < top { assert(s2[p] == stack[p]); } } }
+    assert forall|c: int| 0 <= c < fb.len() && (#[trigger] fb[c]).opt_frame is None implies emitted(fb, fio, c) || in_seq(s2, c) || in_seq(rev, c) || c == -1 by {
+        if in_seq(stack, c) { let p = choose|p: int| 0 <= p < stack.len() && (#[trigger] stack[p]).index == c; assert(s2[p].index == c); }
+    }
+    assert forall|p: int| 0 <= p < s2.len() implies iset.insert(fv.index).contains((#[trigger] s2[p]).index) by { if p < top { assert(s2[p] == stack[p]); assert(iset.contains(stack[p].index)); } }
+    assert forall|q: int, c: int| 0 <= q < s2.len() && s2[q].visited && #[trigger] dep(s2[q], m, c) implies emitted(fb, fio, c) || above(s2, q, c) || in_seq(rev, c) || c == -1 by {
+        if q < top {
+            assert(s2[q] == stack[q]); assert(dep(stack[q], m, c));
+            if above(stack, q, c) { let r = choose|r: int| q < r < stack.len() && (#[trigger] stack[r]).index == c; assert(s2[r].index == c); }
+            if c == cur { assert(s2[top].index == c); }
+        } else { assert(dep_upto(fv, m, c, fv.sources@.len() as int)); }
+    }
+}
+// a waiting frame goes from rev onto the stack
+proof fn dfs_unrev(fb: Seq<FrameBufferValue>, fio: Seq<Frame>, m: Map<String, (usize, usize)>, tl: Seq<int>, stack: Seq<Frame>, rev0: Seq<Frame>, iset: Set<usize>, f: Frame)
+    requires dfs_inv(fb, fio, m, tl, stack, rev0, -1, iset), rev0.len() > 0, f == rev0.last(), !f.visited,
+    ensures dfs_inv(fb, fio, m, tl, stack.push(f), rev0.drop_last(), -1, iset.insert(f.index))
+{
+    let s2 = stack.push(f); let top = stack.len() as int; let rev1 = rev0.drop_last(); let last = rev0.len() - 1; let b = f.index as int;
+    assert(rev0[last].index == b); assert(s2[top].index == b);
+    assert(held(s2, fb, fio)) by { assert forall|p: int| 0 <= p < s2.len() implies (#[trigger] s2[p]).index < fb.len() && fb[s2[p].index as int].opt_frame is None && !emitted(fb, fio, s2[p].index as int) by { if p < top { assert(s2[p] == stack[p]); } } }
+    assert(held(rev1, fb, fio)) by { assert forall|p: int| 0 <= p < rev1.len() implies (#[trigger] rev1[p]).index < fb.len() && fb[rev1[p].index as int].opt_frame is None && !emitted(fb, fio, rev1[p].index as int) by { assert(rev1[p] == rev0[p]); } }
+    assert(distinct(s2)) by { assert forall|p: int, q: int| 0 <= p < q < s2.len() implies (#[trigger] s2[p]).index != (#[trigger] s2[q]).index by { assert(s2[p] == stack[p]); if q < top { assert(s2[q] == stack[q]); } else { assert(stack[p].index != rev0[last].index); } } }
+    assert(distinct(rev1)) by { assert forall|p: int, q: int| 0 <= p < q < rev1.len() implies (#[trigger] rev1[p]).index != (#[trigger] rev1[q]).index by { assert(rev1[p] == rev0[p] && rev1[q] == rev0[q]); } }
+    assert(disjoint(s2, rev1)) by { assert forall|p: int, q: int| 0 <= p < s2.len() && 0 <= q < rev1.len() implies (#[trigger] s2[p]).index != (#[trigger] rev1[q]).index by { assert(rev1[q] == rev0[q]); if p < top { assert(s2[p] == stack[p]); } else { assert(rev0[q].index != rev0[last].index); } } }
+    assert forall|c: int| 0 <= c < fb.len() && (#[trigger] fb[c]).opt_frame is None implies emitted(fb, fio, c) || in_seq(s2, c) || in_seq(rev1, c) || c == -1 by {
+        if in_seq(stack, c) { let p = choose|p: int| 0 <= p < stack.len() && (#[trigger] stack[p]).index == c; assert(s2[p].index == c); }
+        if in_seq(rev0, c) { let p = choose|p: int| 0 <= p < rev0.len() && (#[trigger] rev0[p]).index == c; if p < last { assert(rev1[p].index == c); } else { assert(s2[top].index == c); } }
+    }
+    assert forall|p: int| 0 <= p < s2.len() implies iset.insert(f.index).contains((#[trigger] s2[p]).index) by { if p < top { assert(s2[p] == stack[p]); assert(iset.contains(stack[p].index)); } }
+    assert forall|q: int, c: int| 0 <= q < s2.len() && s2[q].visited && #[trigger] dep(s2[q], m, c) implies emitted(fb, fio, c) || above(s2, q, c) || in_seq(rev1, c) || c == -1 by {
+        assert(q < top); assert(s2[q] == stack[q]); assert(dep(stack[q], m, c));
+        if above(stack, q, c) { let r = choose|r: int| q < r < stack.len() && (#[trigger] stack[r]).index == c; assert(s2[r].index == c); }
+        if in_seq(rev0, c) { let p = choose|p: int| 0 <= p < rev0.len() && (#[trigger] rev0[p]).index == c; if p < last { assert(rev1[p].index == c); } else { assert(s2[top].index == c); } }
+    }
+}
 impl TopologicalSortMachine {
     // every emitted frame knows where each of its sources comes from (needed by get_result's unwrap)
     spec fn wf_e(&self) -> bool { all_known(self.frames_in_order@, self.to_buffer_index@, self.source_leaves@, false) }
